@@ -152,6 +152,7 @@ def run(ctx):
     idxspace_rule(ctx, syn)
     trim_rule(ctx, syn)
     case_rule(ctx, syn)
+    regexbase_rule(ctx)
     r_seg = ctx.rule("C07.SEG", "SegmentationIter::next returns cursor..X and advances cursor to the same X; it stops only when cursor >= end")
     sg = syn.fn("next", self_ty="SegmentationIter", trait="Iterator")
     ctx.functions_analysed.add(sg.qual)
@@ -417,3 +418,40 @@ def case_rule(ctx, syn):
                         if ms != [tm]:
                             ctx.report(r, "%s|needle" % fn.qual, "%s normalises the needle with %s while the iterator maps the text with %s: a needle with a non-ASCII upper-case letter (É, Ö, Θ) never matches although the plain lower-cased search finds it" % (fn.qual, ms or "nothing", tm), fn.file, fl["e"].get("l"))
     ctx.floor(r, n, 4, "constructors of FindNoCaseTextIter")
+
+
+# ---------------------------------------------------------------------- REGEXBASE
+def regexbase_rule(ctx, rid="C07.REGEXBASE"):
+    """FindRegexIter adds `beginbytepos` to every match position before converting it to codepoints with the resource's
+    conversion: it has to be the byte offset of the searched text *in the resource*.  0 is right only when the whole
+    resource is searched (begincharpos 0); otherwise it must come from subslice_utf8_offset asked of the TextResource -
+    the same call on the selection itself answers relative to the selection, i.e. always 0."""
+    import mirq
+    r = ctx.rule(rid, "every FindRegexIter is built with a beginbytepos that is 0 together with begincharpos 0 (whole resource) or the result of subslice_utf8_offset on the TextResource (never on the selection itself)")
+    prog = mirq.Program(ctx.facts.mir())
+    n = 0
+    for bid, b in sorted(prog.bodies.items()):
+        for bi, blk in enumerate(b.blocks):
+            for s_ in blk["s"]:
+                rv = s_.get("rv") or {}
+                if rv.get("r") != "agg" or not (rv.get("adt") or "").endswith("FindRegexIter") or "beginbytepos" not in (rv.get("fields") or []):
+                    continue
+                n += 1
+                fl = rv["fields"]
+                byte_op = rv["ops"][fl.index("beginbytepos")]
+                char_op = rv["ops"][fl.index("begincharpos")] if "begincharpos" in fl else None
+                kb = str(b.key_of_operand(byte_op))
+                kc = str(b.key_of_operand(char_op)) if char_op is not None else "?"
+                key = mirq.short_fn(bid) + "|" + re.sub(r"^.* for ", "", re.sub(r">::find_text_regex$", "", bid))[-40:]
+                r.hit(key, sample={"built_in": bid[-90:], "begincharpos": kc[:40], "beginbytepos": kb[:60]})
+                if kb == "const:0":
+                    if kc != "const:0":
+                        ctx.report(r, key + "|zero-base", "%s builds a FindRegexIter with beginbytepos 0 but begincharpos `%s`: match positions are converted as if the searched text began at byte 0 of the resource" % (bid, kc[:40]), b.file, s_.get("line"))
+                    continue
+                prov = b.provenance(byte_op)
+                asks = [(mirq.callee_of(t)[1] or "", (t.get("at") or [""])[0]) for _, t in b.calls() if (mirq.callee_of(t)[0] or "").endswith("subslice_utf8_offset")]
+                if not any(p_.endswith("subslice_utf8_offset") for p_ in prov) or not asks:
+                    ctx.report(r, key + "|base-not-from-subslice", "%s builds a FindRegexIter whose beginbytepos (`%s`) is not the result of subslice_utf8_offset" % (bid, kb[:50]), b.file, s_.get("line"))
+                elif not all("resources::TextResource" in a_[1] or "resources::TextResource" in a_[0] for a_ in asks):
+                    ctx.report(r, key + "|relative-base", "%s takes the beginbytepos of its FindRegexIter from subslice_utf8_offset on %s instead of on the TextResource: that offset is relative to the selection itself (always 0), so every match of a selection that does not begin at byte 0 is reported at the wrong place" % (bid, [a_[1] for a_ in asks if "resources::TextResource" not in a_[1]][0][:50]), b.file, s_.get("line"))
+    ctx.floor(r, n, 3, "FindRegexIter constructions")
